@@ -106,6 +106,7 @@ func (config Config) New(session *packet.Session) (h *Handler, err error) {
 	if !config.DNSServer.IsValid() {
 		config.DNSServer = session.NICInfo.RouterAddr4.IP
 	}
+	config.DNSServer = config.DNSServer.Unmap() // ::ffff:8.8.8.8 (from a net.IP) is 8.8.8.8
 
 	// Segment network - home subnet includes the whole home LAN
 	homeSubnet := SubnetConfig{
